@@ -554,8 +554,12 @@ impl<T: Copy> Buffer<T> {
 #[cfg(rustradio_verif)]
 impl<T> Buffer<T> {
     /// (rpos, wpos, used, capacity, [(tag position, number of tags)]).
+    /// Works on a poisoned buffer too.
     pub fn verif_state(&self) -> (usize, usize, usize, usize, Vec<(usize, usize)>) {
-        let s = self.state.0.lock().unwrap();
+        let s = match self.state.0.lock() {
+            Ok(s) => s,
+            Err(p) => p.into_inner(),
+        };
         (
             s.rpos,
             s.wpos,
